@@ -9,7 +9,8 @@
        component, every weak topological order and every state there is a fuel for which
        the engine answers.  The hypothesis may be restricted to values satisfying a
        representation invariant [Inv] that all operators, the block transformer, the
-       assumptions and the initial value preserve.
+       assumptions and the initial value preserve (the initial value is a parameter of the
+   engine: hypothesis [Inv_init]).
 
    Argument.  Fuel is one number shared by all loops, so fuel monotonicity is used to
    combine the (existentially given) fuels of the finitely many body passes that a loop
@@ -47,12 +48,13 @@ Section Term.
   Variable delay descending : nat.
   Variable use_asm : bool.
   Variable asm : nat -> option A.
+  Variable init : A.
 
-  Notation vis := (visit A OP analyze preds nest entry delay descending use_asm asm).
-  Notation visl := (visit_all A OP analyze preds nest entry delay descending use_asm asm).
+  Notation vis := (visit A OP analyze preds nest entry delay descending use_asm asm init).
+  Notation visl := (visit_all A OP analyze preds nest entry delay descending use_asm asm init).
   Notation incl := (inc_loop A OP analyze preds delay use_asm asm).
   Notation decl := (dec_loop A OP analyze preds descending use_asm asm).
-  Notation erun := (run A OP analyze preds nest entry delay descending use_asm asm).
+  Notation erun := (run A OP analyze preds nest entry delay descending use_asm asm init).
   Notation sthen := (strengthen A OP use_asm asm).
   Notation hinflow := (head_inflow A OP preds use_asm asm).
   Notation est := (est A).
@@ -60,27 +62,27 @@ Section Term.
   (* ------------------------------------------------------------ unfolding of visit *)
   Definition cyc_entry_in (st : est) (c : comp) : bool := e_skip A st && comp_member entry c.
   Definition cyc_st0 (st : est) : est := mkE A (e_pre A st) (e_post A st) false.
-  Definition cyc_epre (st : est) (c : comp) : option A :=
-    if cyc_entry_in st c then Some (e_pre A st entry) else None.
-  Definition cyc_pre0 (st : est) (c : comp) (h : nat) : A :=
-    sthen h (if cyc_entry_in st c then e_pre A st entry
+  Definition cyc_epre (h : nat) : option A :=
+    if Nat.eqb h entry then Some init else None.
+  Definition cyc_pre0 (st : est) (h : nat) : A :=
+    sthen h (if Nat.eqb h entry then init
              else fold_left (fun acc p => if deeper (nest p) (nest h) then acc
                                           else o_join A OP acc (e_post A st p)) (preds h) (o_bot A OP)).
 
   Lemma visit_cycle_eq fuel h body st :
     vis fuel (Cycle h body) st =
     if e_skip A st && negb (cyc_entry_in st (Cycle h body)) then Some st
-    else match incl (visl fuel body) h (cyc_epre st (Cycle h body)) fuel 1
-                    (cyc_pre0 st (Cycle h body) h) (cyc_st0 st) with
+    else match incl (visl fuel body) h (cyc_epre h) fuel 1
+                    (cyc_pre0 st h) (cyc_st0 st) with
          | None => None
          | Some (pre, st') =>
            if Nat.eqb descending 0 then Some st'
-           else decl (visl fuel body) h (cyc_epre st (Cycle h body)) fuel 1 pre st'
+           else decl (visl fuel body) h (cyc_epre h) fuel 1 pre st'
          end.
   Proof. reflexivity. Qed.
 
   Lemma visit_vertex_eq fuel n st :
-    vis fuel (Vertex n) st = Some (visit_vertex A OP analyze preds entry use_asm asm n st).
+    vis fuel (Vertex n) st = Some (visit_vertex A OP analyze preds entry use_asm asm init n st).
   Proof. reflexivity. Qed.
 
   (* ------------------------------------------------------------ (1) fuel monotonicity *)
@@ -147,8 +149,8 @@ Section Term.
     apply visit_all_mono_F. apply Forall_forall. intros c _. apply visit_mono.
   Qed.
 
-  Theorem run_mono w init f f' r :
-    erun f w init = Some r -> f <= f' -> erun f' w init = Some r.
+  Theorem run_mono w f f' r :
+    erun f w = Some r -> f <= f' -> erun f' w = Some r.
   Proof. unfold run. apply visit_all_mono. Qed.
 
   (* ------------------------------------------------------------ representation invariant *)
@@ -160,6 +162,7 @@ Section Term.
   Hypothesis Inv_narrow : forall a b, Inv a -> Inv b -> Inv (o_narrow A OP a b).
   Hypothesis Inv_analyze : forall n a, Inv a -> Inv (analyze n a).
   Hypothesis Inv_asm : forall n a, use_asm = true -> asm n = Some a -> Inv a.
+  Hypothesis Inv_init : Inv init.
 
   Definition SInv (st : est) : Prop :=
     (forall n, Inv (e_pre A st n)) /\ (forall n, Inv (e_post A st n)).
@@ -173,12 +176,16 @@ Section Term.
     destruct (asm n) as [x|] eqn:E; [|exact I]. apply Inv_meet; [exact I|]. exact (Inv_asm n x eq_refl E).
   Qed.
 
-  Lemma join_posts_inv (post : nat -> A) ps : (forall n, Inv (post n)) -> Inv (join_posts A OP post ps).
+  Lemma join_posts_from_inv (post : nat -> A) ps a0 : (forall n, Inv (post n)) -> Inv a0 ->
+    Inv (join_posts_from A OP post ps a0).
   Proof.
-    intros P. unfold join_posts. generalize (o_bot A OP) Inv_bot.
+    intros P. unfold join_posts_from. revert a0.
     induction ps as [|p r IH]; intros acc I; cbn [fold_left]; [exact I|].
     apply IH. apply Inv_join; auto.
   Qed.
+
+  Lemma join_posts_inv (post : nat -> A) ps : (forall n, Inv (post n)) -> Inv (join_posts A OP post ps).
+  Proof. intros P. unfold join_posts. apply join_posts_from_inv; [exact P|exact Inv_bot]. Qed.
 
   Lemma filtered_join_inv (post : nat -> A) h ps : (forall n, Inv (post n)) ->
     Inv (fold_left (fun acc p => if deeper (nest p) (nest h) then acc else o_join A OP acc (post p))
@@ -196,13 +203,14 @@ Section Term.
     destruct ep as [ip|]; [|exact J]. apply Inv_join; [exact J|]. apply E. reflexivity.
   Qed.
 
-  Lemma visit_vertex_inv n st : SInv st -> SInv (visit_vertex A OP analyze preds entry use_asm asm n st).
+  Lemma visit_vertex_inv n st : SInv st -> SInv (visit_vertex A OP analyze preds entry use_asm asm init n st).
   Proof.
     intros [P Q]. unfold visit_vertex.
     destruct (if e_skip A st && Nat.eqb n entry then false else e_skip A st); [split; assumption|].
-    assert (I : Inv (if Nat.eqb n entry then sthen n (e_pre A st n)
-                     else sthen n (join_posts A OP (e_post A st) (preds n)))).
-    { destruct (Nat.eqb n entry); apply strengthen_inv; [apply P|apply join_posts_inv; exact Q]. }
+    assert (I : Inv (sthen n (join_posts_from A OP (e_post A st) (preds n)
+                                (if Nat.eqb n entry then init else o_bot A OP)))).
+    { apply strengthen_inv, join_posts_from_inv; [exact Q|].
+      destruct (Nat.eqb n entry); [exact Inv_init|exact Inv_bot]. }
     split; cbn [e_pre e_post]; apply tset_inv; auto.
   Qed.
 
@@ -270,15 +278,15 @@ Section Term.
 
   Lemma cyc_st0_inv st : SInv st -> SInv (cyc_st0 st).
   Proof. intros [P Q]. split; assumption. Qed.
-  Lemma cyc_epre_inv st c : SInv st -> forall ip, cyc_epre st c = Some ip -> Inv ip.
+  Lemma cyc_epre_inv h : forall ip, cyc_epre h = Some ip -> Inv ip.
   Proof.
-    intros [P Q] ip. unfold cyc_epre. destruct (cyc_entry_in st c); [|discriminate].
-    intros E; inversion E; subst. apply P.
+    intros ip. unfold cyc_epre. destruct (Nat.eqb h entry); [|discriminate].
+    intros E; inversion E; subst. exact Inv_init.
   Qed.
-  Lemma cyc_pre0_inv st c h : SInv st -> Inv (cyc_pre0 st c h).
+  Lemma cyc_pre0_inv st h : SInv st -> Inv (cyc_pre0 st h).
   Proof.
     intros [P Q]. unfold cyc_pre0. apply strengthen_inv.
-    destruct (cyc_entry_in st c); [apply P|]. apply filtered_join_inv. exact Q.
+    destruct (Nat.eqb h entry); [exact Inv_init|]. apply filtered_join_inv. exact Q.
   Qed.
 
   Theorem visit_inv : forall c, inv_at c.
@@ -291,21 +299,21 @@ Section Term.
       assert (VB : forall s r0, SInv s -> visl f body s = Some r0 -> SInv r0).
       { intros s r0. apply visit_all_inv_F. exact F. }
       destruct (incl _ _ _ _ _ _ _) as [[pre st']|] eqn:EI; [|discriminate H].
-      destruct (inc_loop_inv _ VB h _ (cyc_epre_inv st _ HS) _ _ _ _ _ _
-                             (cyc_pre0_inv st _ h HS) (cyc_st0_inv st HS) EI) as [I' S'].
+      destruct (inc_loop_inv _ VB h _ (cyc_epre_inv h) _ _ _ _ _ _
+                             (cyc_pre0_inv st h HS) (cyc_st0_inv st HS) EI) as [I' S'].
       destruct (Nat.eqb descending 0); [inversion H; subst; exact S'|].
-      exact (dec_loop_inv _ VB h _ (cyc_epre_inv st _ HS) _ _ _ _ _ I' S' H).
+      exact (dec_loop_inv _ VB h _ (cyc_epre_inv h) _ _ _ _ _ I' S' H).
   Qed.
 
   Theorem visit_all_inv w : forall f st r, SInv st -> visl f w st = Some r -> SInv r.
   Proof. apply visit_all_inv_F. apply Forall_forall. intros c _. apply visit_inv. Qed.
 
-  Lemma run_state_inv init : Inv init ->
+  Lemma run_state_inv :
     SInv (mkE A (tset A (fun _ => o_bot A OP) entry init) (fun _ => o_bot A OP) true).
-  Proof. intros I. split; cbn [e_pre e_post]; [apply tset_inv; auto|auto]. Qed.
+  Proof. split; cbn [e_pre e_post]; [apply tset_inv; auto|auto]. Qed.
 
-  Theorem run_inv w init f r : Inv init -> erun f w init = Some r -> SInv r.
-  Proof. intros I. unfold run. apply visit_all_inv. apply run_state_inv; exact I. Qed.
+  Theorem run_inv w f r : erun f w = Some r -> SInv r.
+  Proof. unfold run. apply visit_all_inv. apply run_state_inv. Qed.
 
   (* ------------------------------------------------------------ (2) termination *)
   Variable R : nat -> A -> A -> Prop.          (* one order per cycle head: thresholds are per cycle *)
@@ -424,12 +432,12 @@ Section Term.
       { intros f s r. apply visit_all_inv. }
       assert (T : forall s, SInv s -> exists f r, vbf f s = Some r).
       { apply visit_all_total_F. exact F. }
-      pose proof (cyc_epre_inv st (Cycle h body) HS) as EP.
+      pose proof (cyc_epre_inv h) as EP.
       destruct (inc_term vbf M V T h _ EP (S delay) 1 _ _ ltac:(lia)
-                         (cyc_pre0_inv st (Cycle h body) h HS) (cyc_st0_inv st HS))
+                         (cyc_pre0_inv st h HS) (cyc_st0_inv st HS))
         as (f1 & [pre st'] & E1).
       destruct (inc_loop_inv _ (V f1) h _ EP _ _ _ _ _ _
-                             (cyc_pre0_inv st (Cycle h body) h HS) (cyc_st0_inv st HS) E1) as [I' S'].
+                             (cyc_pre0_inv st h HS) (cyc_st0_inv st HS) E1) as [I' S'].
       destruct (Nat.eqb descending 0) eqn:D0.
       + exists f1, st'. rewrite visit_cycle_eq, SK. unfold vbf in E1. rewrite E1, D0. reflexivity.
       + destruct (dec_term vbf M V T h _ EP (S descending) 1 pre st' ltac:(lia) I' S') as (f2 & r & E2).
@@ -445,12 +453,12 @@ Section Term.
   Proof. apply visit_all_total_F. apply Forall_forall. intros c _. apply visit_total. Qed.
 
   (* every run of the engine terminates *)
-  Theorem run_total w init : Inv init -> exists f r, erun f w init = Some r.
-  Proof. intros I. unfold run. apply visit_all_total. apply run_state_inv; exact I. Qed.
+  Theorem run_total w : exists f r, erun f w = Some r.
+  Proof. unfold run. apply visit_all_total. apply run_state_inv. Qed.
 
   Corollary visit_terminates c st : SInv st -> exists f, vis f c st <> None.
   Proof. intros HS. destruct (visit_total c st HS) as (f & r & E). exists f. rewrite E. discriminate. Qed.
 
-  Corollary run_terminates w init : Inv init -> exists f, erun f w init <> None.
-  Proof. intros I. destruct (run_total w init I) as (f & r & E). exists f. rewrite E. discriminate. Qed.
+  Corollary run_terminates w : exists f, erun f w <> None.
+  Proof. destruct (run_total w) as (f & r & E). exists f. rewrite E. discriminate. Qed.
 End Term.
